@@ -32,7 +32,14 @@ RULE = ("cases = (alphabet, reference string, k, insertion, deletion, substituti
         "single insert/delete/replace steps from the reference string: every reached word must be accepted, every "
         "accepted word up to the bound must be reached); every case also tests 3 words obtained by j random enabled "
         "single edits for each j ∈ {k−1, k, k+1} (j ≤ k: must be accepted by construction; j = k+1: DP decides) so that "
-        "long references are probed at the boundary; a case is non-trivial when the reference string is non-empty and 1 ≤ k and k "
+        "long references are probed at the boundary; round 3: (i) each of 50 characters that are special elsewhere "
+        "(regex / re / format metacharacters, blanks, control characters, digits, irregular-case, combining, non-BMP) as "
+        "an ordinary symbol — alphabet {c,a}, references c and a·c·a, k ∈ {0,1}, 4 flag sets, all words to |ref|+k+1 — and "
+        "random alphabets / references made of such characters; (ii) references of 256, 257, 300 and random 258–400 "
+        "symbols (k ≤ 2) and bounds k ∈ {257, 258, 300} with short references: automaton compared exactly with the model, "
+        "language judged by the DP on 13 deterministic neighbours of the reference (itself, one symbol dropped / added / "
+        "replaced at either end and in the middle) whenever the enumeration bound is below |ref|, and on the random-edit "
+        "words; a case is non-trivial when the reference string is non-empty and 1 ≤ k and k "
         "is smaller than the reference length + 2; distinct = distinct argument tuples")
 ASSUMPTIONS = [
     "input_symbols is a set of single characters; the reference string is a str; max_edit_distance is an int",
@@ -299,6 +306,8 @@ def check_one(ctx: Ctx, sigma, ref: str, k: int, ins: bool, dele: bool, sub: boo
     if ctx.evaluations % 211 == 1:
         ctx.sample(dict(case, result=repr(res[1])[:600] if res[0] == "ok" else res, model_line=line[:300]))
     if impl != mod:
+        if len(ref) + max(k, 0) > 40:       # keep the evidence readable: a 300 × 3 grid is not
+            impl, mod = repr(impl)[:1500], repr(mod)[:1500]
         ctx.corr_diff("EDIT", case, impl, mod)
 
 
